@@ -124,6 +124,9 @@ def process_rule(ctx):
         kind, r_arg, agg = calls[0]
         ctx.oblige(f"one-translation#{n}", s, z3.And(z3.BoolVal(len(calls) == 1), r_arg.term == rule.term), kind="frame", replay={"mirror": "process_rule"})
         if kind != "simple":
+            # call-site precondition of the chain translation (and of replace_orig below): it replaces the aggregate
+            # literal by positive literals, so it must only be reached for a positive literal
+            ctx.oblige(f"chain-only-for-positive-literals#{n}", s, A.Literal_sign(agg.term) == S["NoSign"], kind="callsite-pre", replay={"mirror": "process_rule"})
             continue
         n_simple += 1
         atom = A.Literal_atom(agg.term)
@@ -165,6 +168,8 @@ def replace_orig(ctx):
     lw_ref, lits_without = ctx.sym_list(st, "lits_without_vars", "ast")
     st.assume(z3.Or(wf.wf("Rule", rule.term, 1), wf.wf("Minimize", rule.term, 1)))
     st.assume(nf_body_literal(ctx, agg.term), A.is_Literal(agg.term), A.is_BodyAggregate(A.Literal_atom(agg.term)))
+    # call-site precondition (proved in C12.process_rule/chain-only-for-positive-literals): the literal is positive
+    st.assume(A.Literal_sign(agg.term) == S["NoSign"])
     me = ctx.new_object(st, "MinMaxAggregator")
     for nme in ("_store_aggregate_head", "_store_aggregate_for_minimize"):
         ex.overrides[f"ngo.minmax_aggregates:MinMaxAggregator.{nme}"] = lambda e, s, a, k, nme=nme: (s.log.append((nme, tuple(a[1:]))), [(s, None)])[1]
@@ -221,7 +226,6 @@ def replace_orig(ctx):
             s,
             z3.And(n_rep >= 0, repairs_hold == sem.signed(A.Literal_sign(agg.term), guards)),
             replay={"mirror": "replace_orig"},
-            exclude={"C12-replace-orig-drops-sign": A.Literal_sign(agg.term) != S["NoSign"]},
         )
         ctx.oblige(
             f"frame-tail-and-head#{n}",
